@@ -441,6 +441,14 @@ func (p *Path) assume(pr *Pred, key string, val bool) {
 		p.addCons(pr.EqLin)
 		p.addCons(pr.EqLin.Scale(-1))
 	}
+	if pr.EqLin != nil && !truth {
+		// d != 0 on a path that already knows the sign of d (a length compared with 0: len(x) != 0 is len(x) >= 1)
+		if p.Prove(pr.EqLin) {
+			p.addCons(pr.EqLin.Add(LConst(-1)))
+		} else if p.Prove(pr.EqLin.Scale(-1)) {
+			p.addCons(pr.EqLin.Scale(-1).Add(LConst(-1)))
+		}
+	}
 }
 
 // AssumeLin adds the constraint l >= 0 to the path (variant assumptions).
